@@ -323,7 +323,7 @@ func init() {
 				"(1) every string over 16 symbols up to length 4 (thorough 5) in every []byte parameter of both packages (DecodePatch, Apply, Equal, MergePatch, MergeMergePatches, CreateMergePatch), the other parameter over {same, {}, [], {\"a\":1}, null}; " +
 				"(2) operation sequences of length <= 2 in which at least one operation is out-of-domain (empty tokens, non-canonical / overflowing / MinInt64 index tokens, bad ~ escapes, pointers without '/', '' as destination or remove target, root replaced by null or a scalar, test without value) " +
 				"on 8 documents under every combination of the ApplyOptions booleans with limits {0,1,10^6} (quick: one limit per combination), 3 indent strings; legacy package under its globals; " +
-				"(3) 10000/10001-deep nesting into every entry point of both packages, and nesting that only exceeds the limit after an add put a 5100-deep value at the bottom of a 5100-deep document (followed by each kind of operation); (4) EnsurePathExistsOnAdd with indices up to 10^4; (5) DecodePatch + accessors + Apply on awkward operation objects (every kind with every subset of its members missing or null); (6) ~10^4 string shapes (run-length patterns of ASCII / invalid UTF-8 / multi-byte / escapes around the decoder's buffer-growth boundaries) as root, element, member value and member name. states = distinct well-formed strings; non-trivial = library calls"
+				"(3) 10000/10001-deep nesting into every entry point of both packages, and nesting that only exceeds the limit after an add put a 5100-deep value at the bottom of a 5100-deep document (followed by each kind of operation); (4) EnsurePathExistsOnAdd with indices up to 10^4; (5) DecodePatch + accessors + Apply on awkward operation objects (every kind with every subset of its members missing or null); (7) size sweeps: strings, names and number literals of every length 0..130 and around the powers of two up to 65536, objects and arrays of 0..70 and around 128..1024 members, nesting 1..70 and around 100..1000, through Apply (sequences <= 2) and through all four merge functions, both packages; (6) ~10^4 string shapes (run-length patterns of ASCII / invalid UTF-8 / multi-byte / escapes around the decoder's buffer-growth boundaries) as root, element, member value and member name. states = distinct well-formed strings; non-trivial = library calls"
 			n := 4
 			if tier == "thorough" {
 				n = 5
@@ -337,6 +337,23 @@ func init() {
 			ctx.Phase("string_shapes", func() {
 				runStringShapes(ctx, "C04", byteFlags{panics: true, applyOK: true})
 				runStringShapes(ctx, "C04", byteFlags{panics: true, applyOK: true, legacy: true})
+			})
+			ctx.Phase("sizes", func() {
+				// strings / names / literals of every length 0..130 and around the powers of two, objects and arrays of
+				// the threshold sizes, through Apply of both packages (panics only)
+				for _, legacy := range []bool{false, true} {
+					base := &seqProp{ID: "C04", Legacy: legacy, Opts: []r69.Options{defaultOpt}, Judge: func(r *seqRun) {
+						if r.obs.Panic != "" {
+							r.viol("panic", "panic:"+impl.PanicSite(r.obs.Panic), "library panicked: "+r.obs.Panic)
+						}
+					}}
+					for _, ph := range sizePhases(base, tier, 2, false) {
+						runSeq(ctx, ph)
+					}
+				}
+				for _, legacy := range []bool{false, true} {
+					runSizeSweepPanics(ctx, "C04", legacy, tier)
+				}
 			})
 			ctx.Phase("seq_legacy", func() { runC04Seq(ctx, true, tier) })
 			ctx.Phase("seq_v5", func() { runC04Seq(ctx, false, tier) })
